@@ -456,7 +456,15 @@ fn run_field<F: FS>(ctx: &Arc<Ctx>) {
     // 2c. boundary classes of limb-wise comparison / negation with p (values whose limbs equal
     // p's above some position): every unary form, and every binary form against 4 partners
     {
-        let cf: Vec<BigUint> = dedup(cmp_family(&p, n).into_iter().filter(|x| *x < p).chain(neg_family(&p, n)).collect());
+        // ... plus operands with LONG trajectories of the divstep iteration that drives the 32-bit
+        // backend's inversion for a fixed number of steps (refmodel::divstep): a, a*R and a/R, so
+        // that the iteration sees the long trajectory whichever domain it is started in
+        let lt = refmodel::divstep::long_trajectory_family(&p, if ctx.quick() { 256 } else { 1024 }, 16);
+        let rr = BigUint::one() << (8 * n);
+        let rinv = fld.inv(&(&rr % &p)).unwrap();
+        let lt_vals: Vec<BigUint> = lt.iter().flat_map(|(a, _)| vec![a.clone(), fld.mul(a, &rr), fld.mul(a, &rinv)]).collect();
+        r.set(&format!("domain_divstep_{}", F::NAME), json!({"operands": lt_vals.len(), "steps_max": lt.first().map(|x| x.1), "steps_min": lt.last().map(|x| x.1), "typical_steps": refmodel::divstep::steps_needed(&p, &(&p / 3u32))}));
+        let cf: Vec<BigUint> = dedup(cmp_family(&p, n).into_iter().filter(|x| *x < p).chain(neg_family(&p, n)).chain(lt_vals).collect());
         let cf_f: Vec<F> = cf.iter().map(F::of).collect();
         let (nc, nu) = (cf.len(), uforms.len());
         run_cases(
